@@ -57,9 +57,13 @@ func c03Run(w *W, enumerate bool) {
 	inclCtx := simrt.Choose(2) == 1
 	excl := simrt.Choose(3) // 0 none, 1 the injected error, 2 an unrelated one
 	useCollector := simrt.Choose(2) == 1
-	nFaults := 0
+	// (the draws up to here and, in the fault family, the next three are the
+	// configuration cell: see Workload.Cells)
+	nFaults, firstKind, firstPos := 0, 0, 0
 	if w.faulty() {
 		nFaults = 1 + simrt.Choose(2)
+		firstKind = 1 + simrt.Choose(fkNumKinds-1)
+		firstPos = simrt.Choose(4)
 	}
 	n := 1 + simrt.Choose(12)
 	if cons == 4 && w.faulty() && simrt.Choose(2) == 0 {
@@ -72,12 +76,11 @@ func c03Run(w *W, enumerate bool) {
 	unrelated := &errSentinel{"unrelated"}
 	var faults []c03Fault
 	for i := 0; i < nFaults; i++ {
-		k := 1 + simrt.Choose(fkNumKinds-1)
-		pos := simrt.Choose(4)
-		if i == 1 {
-			pos = simrt.Choose(n)
+		if i == 0 {
+			faults = append(faults, c03Fault{pos: firstPos, kind: firstKind})
+			continue
 		}
-		faults = append(faults, c03Fault{pos: pos, kind: k})
+		faults = append(faults, c03Fault{pos: simrt.Choose(n), kind: 1 + simrt.Choose(fkNumKinds-1)})
 	}
 	realCancel := w.faulty() && simrt.Choose(6) == 0
 	cancelAt := simrt.Choose(100)
@@ -348,6 +351,6 @@ func c03Run(w *W, enumerate bool) {
 }
 
 func init() {
-	Register(&Workload{Prop: "C03", Name: "nofault", MaxSteps: 30000, Run: func(w *W) { c03Run(w, false) }})
-	Register(&Workload{Prop: "C03", Name: "faults", Faulty: true, MaxSteps: 30000, Run: func(w *W) { c03Run(w, false) }})
+	Register(&Workload{Prop: "C03", Name: "nofault", MaxSteps: 30000, Cells: []int{5, 4, 2, 2, 2, 3, 2}, Run: func(w *W) { c03Run(w, false) }})
+	Register(&Workload{Prop: "C03", Name: "faults", Faulty: true, MaxSteps: 30000, Cells: []int{5, 4, 2, 2, 2, 3, 2, 2, fkNumKinds - 1, 4}, Run: func(w *W) { c03Run(w, false) }})
 }
